@@ -180,6 +180,26 @@ def call(fn, t, lon, lat, alt):
 
 
 # ------------------------------------------------------------------ line tracing: which branch / guard ran
+def source_current(func):
+    """True when the source text on disk is still the text the loaded function was compiled from (line tracing maps line
+    numbers of the loaded code to text read from disk; a tree that is modified while the check runs would be misread)."""
+    import textwrap
+    try:
+        lines, _ = inspect.getsourcelines(func)
+        mod = compile(textwrap.dedent("".join(lines)), "<src>", "exec")
+        codes = [c for c in mod.co_consts if hasattr(c, "co_code") and c.co_name == func.__code__.co_name]
+        if not codes:
+            return False
+        import dis
+
+        def ops(code):
+            return [(i.opname, i.argval if isinstance(i.argval, (str, int, float, tuple, type(None))) else type(i.argval).__name__)
+                    for i in dis.get_instructions(code)]
+        return ops(codes[0]) == ops(func.__code__)
+    except Exception:  # noqa
+        return False
+
+
 class Tracer:
     """Records the executed source lines of the watched functions (by stripped text)."""
 
@@ -190,6 +210,7 @@ class Tracer:
         for name in ("jdays2000", "_days", "cos_zen", "sun_zenith_angle", "get_alt_az", "observer_position"):
             self.funcs[name] = getattr(astronomy, name)
         self.funcs["dt2np"] = pyorbital.dt2np
+        self.stale = not all(source_current(f) for f in self.funcs.values())
         self.src = {}
         self.codes = {}
         for name, f in self.funcs.items():
@@ -440,8 +461,12 @@ def correspond(ctx):
             ctx.distinct((fn, tk, ck))
             ctx.bump("result_kind", got.split()[2] if len(got.split()) > 2 else got)
             ctx.bump("branches", " ".join(got.split()[:2]))
+            if tracer.stale and not got.startswith("error") and not o.startswith("error"):
+                got, o = " ".join(got.split()[2:]), " ".join(o.split()[2:])     # descriptors only
             if got != o:
                 ctx.disagree("c08kind", {"fn": fn, "time": tk, "coord": ck, "t0": t0.isoformat()}, got, o)
+        if tracer.stale:
+            ctx.note("the source files of the tree changed on disk after import: branches / guards not compared by line tracing")
         ctx.exhaustive = True
         ctx.note("kind product complete: %d cells; transfer functions complete: %d cases" % (
             len(FNS) * len(TIME_KINDS) * len(COORD_KINDS), len(UNARY_OPS) * len(AV_TOKENS) + len(BINARY_OPS) * len(AV_TOKENS) ** 2))
@@ -485,6 +510,9 @@ def correspond(ctx):
         for label, func, marker, f_arr, f_one in (
                 ("lonlatalt", orbital.Orbital.get_lonlatalt, "lat2 = lat", lambda: o.get_lonlatalt(tarr), lambda t: o.get_lonlatalt(t)),
                 ("newton", orbital._Keplerians._iterate_newton_raphson, "self._sinEPW", lambda: o.get_position(tarr), lambda t: o.get_position(t))):
+            if not source_current(func):
+                ctx.note("source of %s changed on disk after import: iteration counts not traced" % func.__name__)
+                continue
             big_n, _ = count_lines(func, marker, f_arr)
             ns = [count_lines(func, marker, lambda t=t: f_one(t))[0] for t in ts]
             ctx.count("eval_corr_joint_counts")
